@@ -197,6 +197,42 @@ func initModels() {
 		empty := zeroOfSort(e.strSort())
 		return []Val{scalar(cc.Signature().Results().At(0).Type(), ite(and(not(eq(a[0].S, "0")), dom, "(> "+v.Len+" 0)"), first.S, empty))}, true
 	}}
+	// strings (only meaningful when the function under contract uses SMT strings)
+	models["strings.SplitN"] = &model{silent: true, fn: func(x *Exec, p *Path, site ssa.Instruction, cc *ssa.CallCommon, a []Val) ([]Val, bool) {
+		e := x.e
+		t := cc.Signature().Results().At(0).Type()
+		if !e.stringMode || a[2].S != "2" {
+			return []Val{e.freshVal(p, t, "splitn")}, true
+		}
+		e.note("strings.SplitN(s, sep, 2): cut at the first occurrence of sep (assumed)")
+		s, sep := a[0].S, a[1].S
+		has := "(str.contains " + s + " " + sep + ")"
+		idx := "(str.indexof " + s + " " + sep + " 0)"
+		arr := e.alloc(p, "splitn")
+		strT := types.Typ[types.String]
+		e.storeElem(p, arr, "0", strT, scalar(strT, ite(has, "(str.substr "+s+" 0 "+idx+")", s)))
+		e.storeElem(p, arr, "1", strT, scalar(strT, "(str.substr "+s+" (+ "+idx+" (str.len "+sep+")) (str.len "+s+"))"))
+		return []Val{{K: KSlice, T: t, S: arr, Off: "0", Len: ite(has, "2", "1")}}, true
+	}}
+	models["strings.HasPrefix"] = pure(func(x *Exec, p *Path, cc *ssa.CallCommon, a []Val) []Val {
+		if !x.e.stringMode {
+			return []Val{x.e.freshVal(p, rt(cc, 0), "hasprefix")}
+		}
+		return []Val{scalar(rt(cc, 0), "(str.prefixof "+a[1].S+" "+a[0].S+")")}
+	})
+	models["strings.TrimPrefix"] = pure(func(x *Exec, p *Path, cc *ssa.CallCommon, a []Val) []Val {
+		if !x.e.stringMode {
+			return []Val{x.e.freshVal(p, rt(cc, 0), "trimprefix")}
+		}
+		s, pre := a[0].S, a[1].S
+		return []Val{scalar(rt(cc, 0), ite("(str.prefixof "+pre+" "+s+")", "(str.substr "+s+" (str.len "+pre+") (str.len "+s+"))", s))}
+	})
+	models["strings.Contains"] = pure(func(x *Exec, p *Path, cc *ssa.CallCommon, a []Val) []Val {
+		if !x.e.stringMode {
+			return []Val{x.e.freshVal(p, rt(cc, 0), "contains")}
+		}
+		return []Val{scalar(rt(cc, 0), "(str.contains "+a[0].S+" "+a[1].S+")")}
+	})
 	models["math.IsNaN"] = pure(func(x *Exec, p *Path, cc *ssa.CallCommon, a []Val) []Val {
 		x.e.note("float64 modelled as real: NaN does not occur")
 		return []Val{scalar(rt(cc, 0), "false")}
